@@ -44,3 +44,43 @@ Qed.
 (* SLIP-32 standard human-readable parts: equal length, distinct *)
 Lemma slip32_std_ok : length slip32_std_pub = length slip32_std_priv /\ slip32_std_pub <> slip32_std_priv.
 Proof. split; [reflexivity|]. vm_compute. discriminate. Qed.
+
+(* ---- WIF / BIP-38 constants ---- *)
+Lemma c_ecdsa_priv_len : ecdsa_priv_len = 32%nat.           Proof. reflexivity. Qed.
+Lemma c_wif_suffix : wif_compr_suffix = 1.                   Proof. reflexivity. Qed.
+Lemma c_order_lt : secp256k1_order < 256 ^ 32.               Proof. vm_compute. reflexivity. Qed.
+Lemma c_order_pos : 1 < secp256k1_order.                     Proof. vm_compute. reflexivity. Qed.
+Lemma c_addr_hash_len : bip38_addr_hash_len = 4%nat.        Proof. reflexivity. Qed.
+Lemma c_noec_enc_len : bip38_noec_enc_len = 39%nat.         Proof. reflexivity. Qed.
+Lemma c_noec_prefix : bip38_noec_prefix = [1; 66].           Proof. reflexivity. Qed.   (* 0x01 0x42 *)
+Lemma c_noec_flags : bip38_noec_flag_compr = 224 /\ bip38_noec_flag_uncompr = 192.   (* 0xe0, 0xc0 *)
+Proof. split; reflexivity. Qed.
+Lemma c_noec_scrypt : bip38_noec_scrypt_n = 16384 /\ bip38_noec_scrypt_r = 8 /\ bip38_noec_scrypt_p = 8 /\
+                      bip38_noec_scrypt_len = 64.
+Proof. repeat split; reflexivity. Qed.
+(* the literal slice bounds in the function bodies are the standard's field offsets *)
+Lemma c_noec_dec_slices : bip38_noec_dec_slices = [(0, 2); (2, 3); (3, 7); (7, 23); (23, 0)]%nat.
+Proof. reflexivity. Qed.
+Lemma c_noec_enc_slices : bip38_noec_enc_slices = [(0, 16); (0, 16); (16, 0); (16, 0)]%nat.
+Proof. reflexivity. Qed.
+
+Lemma c_ec_lot_seq : bip38_ec_lot_min = 0%Z /\ bip38_ec_lot_max = 1048575%Z /\ bip38_ec_seq_min = 0%Z /\
+                     bip38_ec_seq_max = 4095%Z /\ bip38_ec_lotseq_len = 4%nat /\ bip38_ec_salt_lotseq_len = 4%nat /\
+                     bip38_ec_salt_nolotseq_len = 8%nat.
+Proof. repeat split; reflexivity. Qed.
+Lemma c_ec_misc : bip38_ec_intpass_len = 49%nat /\ bip38_ec_enc_len = 39%nat /\ bip38_ec_seedb_len = 24%nat /\
+                  bip38_ec_prefix = [1; 67] /\ bip38_ec_flag_bit_compr = 5 /\ bip38_ec_flag_bit_lotseq = 2.
+Proof. repeat split; reflexivity. Qed.
+Lemma c_ec_magic : bip38_ec_magic_lotseq = [44; 233; 179; 225; 255; 57; 226; 81] /\
+                   bip38_ec_magic_nolotseq = [44; 233; 179; 225; 255; 57; 226; 83].
+Proof. split; reflexivity. Qed.
+Lemma c_ec_scrypt : bip38_ec_pre_n = 16384 /\ bip38_ec_pre_r = 8 /\ bip38_ec_pre_p = 8 /\ bip38_ec_pre_len = 32 /\
+                    bip38_ec_halves_n = 1024 /\ bip38_ec_halves_r = 1 /\ bip38_ec_halves_p = 1 /\ bip38_ec_halves_len = 64.
+Proof. repeat split; reflexivity. Qed.
+Lemma c_ec_gen_slices : bip38_ec_gen_slices = [(0, 8); (8, 16); (16, 0); (0, 8)]%nat.  Proof. reflexivity. Qed.
+Lemma c_ec_encseedb_slices : bip38_ec_encseedb_slices = [(0, 16); (0, 16); (8, 0); (16, 0); (16, 0)]%nat.
+Proof. reflexivity. Qed.
+Lemma c_ec_dec_slices : bip38_ec_dec_slices = [(0, 2); (2, 3); (3, 7); (7, 15); (15, 23); (23, 0)]%nat.
+Proof. reflexivity. Qed.
+Lemma c_ec_factorb_slices : bip38_ec_factorb_slices = [(16, 0); (0, 8); (8, 0); (0, 16)]%nat.
+Proof. reflexivity. Qed.
